@@ -71,6 +71,11 @@ struct Scenario {
 
 fn frags(rng: &mut Rng, t: usize, c: usize) -> Vec<String> {
     let mut v = vec![format!("\x1b[1;3{}m", t % 8), format!("<T{t}.{c}:")];
+    // half of the records begin with plain text: a record that begins with ESC re-synchronises any
+    // parser state it meets, one that begins with text shows state left behind by somebody else
+    if rng.chance(1, 2) {
+        v.swap(0, 1);
+    }
     for k in 0..rng.range(0, 3) {
         match rng.below(3) {
             0 => v.push(format!("\x1b[38;5;{}m", rng.below(256))),
@@ -173,7 +178,16 @@ fn generate(scen_seed: u64) -> Scenario {
         }
         // a spawned thread may print one more record while its thread-locals are being destroyed
         if t >= 1 && rng.chance(1, 4) {
-            calls.push(Call { kind: Kind::TlsDrop(rng.chance(1, 2)), frags: frags(&mut rng, t, 8), nested: vec![] });
+            // (many fragments: the more inner writes the record makes, the more chances another
+            // thread has to get in between if they are not covered by one lock acquisition)
+            let mut f = frags(&mut rng, t, 8);
+            let tail = f.split_off(f.len() - 2);
+            for k in 0..24 {
+                f.push(format!("\x1b[3{}m", k % 8));
+                f.push(format!("d{k}"));
+            }
+            f.extend(tail);
+            calls.push(Call { kind: Kind::TlsDrop(rng.chance(1, 2)), frags: f, nested: vec![] });
         }
         threads.push(calls);
     }
@@ -805,13 +819,19 @@ fn check_stream(sc: &Scenario, is_err: bool, data: &[u8]) -> Result<u64, String>
                     Some(c) => vec![c],
                     None => (0..item.len()).map(|a| (a, 0)).collect(),
                 };
+                // longest rendering first: the stripped rendering of a record that begins with
+                // plain text is a prefix of its raw rendering
+                let mut best: Option<(usize, usize, usize)> = None;
                 for (a, b) in candidates {
                     for form in &item[a][b] {
-                        if data[pos..].starts_with(form) {
-                            matched = Some((t, a, b, form.len()));
-                            break 'find;
+                        if data[pos..].starts_with(form) && best.map(|(_, _, l)| form.len() > l).unwrap_or(true) {
+                            best = Some((a, b, form.len()));
                         }
                     }
+                }
+                if let Some((a, b, len)) = best {
+                    matched = Some((t, a, b, len));
+                    break 'find;
                 }
             }
         }
